@@ -40,7 +40,7 @@ VARIANTS = [
          [(EM, "    if gate.name in macros:\n        macro = macros[gate.name]", "    if gate.name in macros:\n        macro = macros.pop(gate.name)")],
          ("C11.1", "replace_gate"), P),
     fire("c11-visitor-state-aliases-input",
-         [(UQ, "        self.all_qubits = {}\n        for reg in obj.fundamental_registers():\n            self.all_qubits[reg.name] = set(range(reg.size))", "        self.all_qubits = obj.registers\n        for reg in obj.fundamental_registers():\n            self.all_qubits[reg.name] = set(range(reg.size))")],
+         [(UQ, "        self.all_qubits = {}\n        for reg in obj.fundamental_registers():\n            self.all_qubits[reg.name] = set(range(int(reg.size)))", "        self.all_qubits = obj.registers\n        for reg in obj.fundamental_registers():\n            self.all_qubits[reg.name] = set(range(int(reg.size)))")],
          ("C11.1", "UsedQubitIndicesVisitor.visit_Circuit"), P),
     fire("c11-gate-parameters-rewritten",
          [(UN, "            for param, val in zip(gatedef.parameters, gate.parameters.values()):\n", "            gate.parameters.clear()\n            for param, val in zip(gatedef.parameters, gate.parameters.values()):\n")],
